@@ -847,6 +847,13 @@ pub fn general_spaces(o: &GenOpts) -> Vec<Space> {
         cfgs_opts_orders(s.n, &Api::all_with(), &[None], with_streams)
     }));
     v.extend(unusual_input_spaces(Api::all(), with_streams, vec![None]));
+    v.push(space("graphs with access declarations (Data edges), all DAGs x declarations n=3 T=1, 10 _with APIs x order, streams", decl_specs(3, 1), None, move |s| {
+        let mut c = cfgs_plain(s.n, &Api::all_with(), &[None], &REVS);
+        if with_streams {
+            c.extend(cfgs_stream_plain(&[SApi::StreamWith], &REVS, 0, false, false));
+        }
+        c
+    }));
     if o.n_stream > 0 {
         let st = o.strats.clone();
         v.push(space(&format!("streams (consumer explorer), shapes n<={}", o.n_stream), shapes_upto(nmin, o.n_stream, true), None, move |_| {
@@ -1412,6 +1419,7 @@ pub fn c10(tier: &str) -> (Vec<Space>, Focus) {
     v.extend(antichain_spaces(tier, AntiOpts { futures: true, streams: false, limits: vec![Some(1), Some(2), Some(3), Some(5)], limit_below_width: true, fail_antichain: false }));
     v.extend(tokio_task_spaces(tier, TaskOpts { futures: true, streams: false, fail_single: false, limits: vec![Some(1), Some(2), Some(50)] }));
     v.extend(unusual_input_spaces(Api::all().into_iter().filter(|a| a.concurrent()).collect(), false, vec![Some(1), Some(2)]));
+    v.push(space("graphs with access declarations (Data edges), all DAGs x declarations n=3 T=1, 6 concurrent _with APIs x order x limit{1,2}", decl_specs(3, 1), None, |s| cfgs_plain(s.n, &conc_with(), &[Some(1), Some(2)], &REVS)));
     v.extend(all_methods_spaces(tier, true, false));
     v.extend(n5_space(tier, &[Some(1), Some(2), Some(3)]));
     let focus = Focus {
